@@ -10,24 +10,33 @@ CHECKS = {
                 'signifier characters, two layouts with the same SET of signifiers give the same sorted signifier list and the '
                 'same exported note under every category filter (sorted duplicate-free lists over a total antisymmetric order '
                 'are unique; the stable sort is a permutation). The fixed-point clauses (default export and extended round trip '
-                're-import without errors and re-export identically) are decided at document level by the correspondence of the '
-                'importer/exporter/scanner model with kernpy and by running the property on kernpy; no scan-of-print theorem is '
-                'claimed yet.',
+                're-import without errors and re-export identically) are PROVED for single notes: for every well-formed note (any '
+                'digits, %n, dots, grace mark, pitch letter and octave, accidental with or without display suffix, duplicate-free '
+                'stand-alone signifiers) the scanner + listener on the canonical text consume it entirely and return exactly the '
+                'note (C01_reimport_of_canonical_note), the kern export of that token is that text (string lemmas on replace / '
+                'join, sort identity on sorted lists) and export-import-export = export (C01_note_fixed_point). For rests, chords, '
+                'other tokens and whole documents the fixed point is decided by the correspondence of the scanner / importer / '
+                'exporter model with kernpy and by running the property on kernpy.',
         'note': _COMMON_NOTE + 'The ANTLR grammar is modelled only on the CKL sub-language (DESIGN.md section 3); its signifier tables are validated by an exhaustive character / pair sweep on every run.',
         'technique': 'Coq proof of canonicity (sorted-NoDup uniqueness, sort permutation) + model/impl correspondence of scanner, importer and exporter + property monitors',
     },
     'C02': {
         'text': 'Theorems in coq/props/C02.v, by induction over the rows of the importer model with an invariant on the '
                 'stage table: for EVERY text that imports, the tree has one stage per non-empty line and one node per '
-                'tab-separated cell (one node for a global-comment line); a cell beyond the live spine paths makes the step '
-                'raise. Parent / header / spine-id / literal-text clauses are decided by comparing the whole tree of kernpy with '
+                'tab-separated cell (one node for a global-comment line); every imported document is a tree (ids = creation '
+                'order, a parent precedes its children, each node is listed in the children of exactly its parent); every node '
+                'that has a header points to a HeaderToken node and either is it or inherits it from its parent, so a whole spine '
+                'path through splits and joins carries the header of its column; a cell beyond the live spine paths makes the '
+                'step raise. WHICH parent a cell gets (the cell above on the same spine path) and literal text are decided by comparing the whole tree of kernpy with '
                 'the model and with an independent reference spine-path model on every spine-operator layout up to depth 3 '
                 '(exhaustive), literal cells and surplus rows.',
         'note': _COMMON_NOTE + 'csv.reader / str.splitlines are modelled from their documented behaviour (QUOTE_NONE, tab delimiter).',
         'technique': 'Coq proof by induction over rows (stage-table invariant) + exhaustive-layout model/impl correspondence of the whole tree + reference spine-path monitor',
     },
     'C03': {
-        'text': 'Theorems in coq/props/C03.v (token level, all tokens / filters / encodings): non-note tokens are exported as '
+        'text': 'Theorems in coq/props/C03.v (token level, all tokens / filters / encodings): a note written in canonical order is '
+                'imported with exactly its duration marks, pitch letters, accidental and signifiers and exported as the same text '
+                '(scan-of-print and export-of-canonical theorems shared with C01); non-note tokens are exported as '
                 'their text, the default category set deletes no sub-part, exported sub-parts are a permutation of the note\'s '
                 'sub-parts, separator-free text is identical in all encodings. The grid clauses (same lines minus global '
                 'comments and null lines, every cell against the generator\'s own description) are decided by correspondence of '
@@ -77,8 +86,8 @@ CHECKS = {
     },
     'C07': {
         'text': 'Theorems in coq/props/C07.v on the exporter model: consecutive stage ranges compose (rows of [a,a+n+m) = rows of '
-                '[a,a+n) ++ rows of [a+n,a+n+m), each once, unmodified) and a negative start / end beyond M / end before start '
-                'yields ValueError. Which stages a measure spans, the partition of the full export by the single-measure '
+                '[a,a+n) ++ rows of [a+n,a+n+m), each once, unmodified), a negative start / end beyond M / end before start '
+                'yields ValueError, and the measure index of every imported document is strictly increasing and addresses existing stages. Which stages a measure spans, the partition of the full export by the single-measure '
                 'exports and iteration are decided on EVERY pair a <= b of generated documents: kernpy vs model and vs the '
                 'generator\'s own measure segmentation. Known finding K10 (ragged signature rows raise).',
         'note': _COMMON_NOTE,
